@@ -58,6 +58,8 @@ type Model struct {
 	rfOnStack map[*ssa.Function]bool
 	rpMemo map[string][]map[string]Lit
 	justDepth int
+	edgeHook func(l Lit, flag int) (int, bool)
+	descend func(f *ssa.Function) bool
 	assumeNil map[ssa.Value]bool
 	assume map[ssa.Value]bool
 	refreshFn *ssa.Function
